@@ -530,6 +530,10 @@ pub struct Ctx {
     pub profile: String,
     pub rng: Rng,
     pub policy: PanicPolicy,
+    /// When true (C20 re-running other properties' workloads) only panics judged
+    /// by `judge_panic` are recorded; the workloads' own semantic oracles are
+    /// counted but not reported (they belong to their own property's check).
+    pub panics_only: bool,
     pub trace: bool,
     out: PathBuf,
     start: Instant,
@@ -609,6 +613,7 @@ impl Ctx {
             profile: args.profile.clone(),
             rng: Rng::derive(args.seed, &args.id, args.shard.0 as u64),
             policy: PanicPolicy::Any,
+            panics_only: false,
             trace: args.trace,
             out: args.out.clone(),
             start: Instant::now(),
@@ -713,6 +718,10 @@ impl Ctx {
     /// failing input / call site / history; it is what known findings are
     /// keyed on. Returns true if it was a *new* (non-known) violation.
     pub fn violation(&mut self, signature: &str, detail: Value, bytes: Option<&[u8]>) -> bool {
+        if self.panics_only {
+            self.count("foreign_oracle_reports_ignored", 1);
+            return false;
+        }
         self.violation_for(&self.id.clone(), signature, detail, bytes)
     }
 
@@ -797,7 +806,7 @@ impl Ctx {
         if violates {
             let sig = p.signature();
             let d = json!({"what": what, "panic": {"file": p.file, "line": p.line, "msg": p.msg, "class": p.class.as_str()}, "case": detail});
-            self.violation(&sig, d, bytes);
+            self.violation_for(&self.id.clone(), &sig, d, bytes);
         } else {
             self.distinct("other_property_panic_sites", fnv64(p.signature().as_bytes()));
             self.label("other_property_panic_sites", &p.signature());
